@@ -225,7 +225,7 @@ func init() {
 		mem := o.One(e.Calls(ps, "(*github.com/hashicorp/memberlist.Memberlist).Members"), "members", "peers() must start from the member list", ps)
 		o.Site(mem, "peers() = members − self")
 		self := LRe(`\(\(\*am/cluster\.Peer\)\.Self\(\^?recv\)\.Name == \(\*github\.com/hashicorp/memberlist\.Node\)\.String\(.*\[i\]\)\)`, true)
-		if peersByFoundIndex(o, ps, mem.(*ssa.Call), self) {
+		if peersByFoundIndex(o, ps, mem.(*ssa.Call), self) || peersByIndexFunc(o, ps, mem.(*ssa.Call)) {
 			goto wiring
 		}
 		{
@@ -517,6 +517,72 @@ func peersByFoundIndex(o *Ob, ps *ssa.Function, mem *ssa.Call, self LitM) bool {
 	}
 	if o.Check(search != nil, "peers-search", "peers() must look for the own name among all members", rm) {
 		o.LoopExitsGuarded(search, "peers-search", "the search for the own name may stop early only once it was found", neg.Neg())
+	}
+	return true
+}
+
+// peersByIndexFunc: peers() with the library's search: k = slices.IndexFunc(members, "is the own name");
+// the members unchanged only while k < 0, otherwise a list made of members[:k] followed by members[k+1:].
+func peersByIndexFunc(o *Ob, ps *ssa.Function, mem *ssa.Call) bool {
+	e := o.E
+	var ix *ssa.Call
+	for _, c := range e.Calls(ps, "slices.IndexFunc") {
+		if c.Common().Args[0] == ssa.Value(mem) {
+			ix = c.(*ssa.Call)
+		}
+	}
+	if ix == nil {
+		return false
+	}
+	o.Site(ix, "peers() = members without the one IndexFunc finds")
+	pred := e.FuncValue(ix.Call.Args[1])
+	if o.Check(pred != nil, "peers-remove-guard", "the search predicate of peers() cannot be resolved", ix) {
+		arg := "p0"
+		for _, ret := range (&Walk{Fn: pred}).FromEntry().Returns() {
+			v := e.X(pred, ret.Results[0])
+			// (the member's name, read directly or through Node.String, which returns it)
+			nameOf := `(\(\*github\.com/hashicorp/memberlist\.Node\)\.String\(` + arg + `\)|` + arg + `\.Name)`
+			selfName := `\(\*am/cluster\.Peer\)\.Self\(\^?(recv|p0)\)\.Name`
+			okp := regexpMatch(`^\(`+selfName+` == `+nameOf+`\)$`, v) || regexpMatch(`^\(`+nameOf+` == `+selfName+`\)$`, v)
+			if strings.Contains(v, arg+".Name") {
+				if ns := e.Func("(*github.com/hashicorp/memberlist.Node).String"); ns != nil {
+					for _, r2 := range (&Walk{Fn: ns}).FromEntry().Returns() {
+						okp = okp && e.X(ns, r2.Results[0]) == "recv.Name"
+					}
+				}
+			}
+			o.Check(okp, "peers-remove-guard", "the member left out of the peer list is the one for which "+clip(v)+", not the one with the own name", ret)
+		}
+	}
+	kx, mx := e.X(ps, ix), e.X(ps, mem)
+	neg := L("("+kx+" < 0)", true)
+	o.Check(e.CountLitEdges(ps, neg)+e.CountLitEdges(ps, neg.Neg()) > 0, "peers-self-kept", "peers() does not test whether the own name was found", ix)
+	for _, ret := range (&Walk{Fn: ps}).FromEntry().Returns() {
+		v := ret.Results[0]
+		if v == ssa.Value(mem) {
+			o.Guarded(ret, "peers-self-kept", "returning the member list unchanged", neg)
+			continue
+		}
+		bases, parts := e.AppendParts(v)
+		okBase := true
+		for _, b := range bases {
+			if !IsEmptySlice(b) {
+				if _, isMake := b.(*ssa.MakeSlice); !isMake {
+					okBase = false
+				}
+			}
+		}
+		var ps2 []string
+		for _, p := range parts {
+			if p.Spread {
+				ps2 = append(ps2, e.X(ps, p.V))
+			} else {
+				ps2 = append(ps2, "elem:"+e.X(ps, p.V))
+			}
+		}
+		want := []string{"slice(" + mx + ",hi=" + kx + ")", "slice(" + mx + ",lo=(" + kx + " + 1))"}
+		o.Check(okBase && len(ps2) == 2 && ps2[0] == want[0] && ps2[1] == want[1], "peers-tail", "peers() must be the members before and after the own entry, is built from "+clip(strings.Join(ps2, " , ")), ret)
+		o.Guarded(ret, "peers-remove-guard", "cutting a member out of the list", neg.Neg())
 	}
 	return true
 }
